@@ -756,9 +756,8 @@ func c15Run(c *Case) []any {
 	c.Decode(&raw)
 	line := map[string]any{"case": c.Idx, "c": raw}
 	goroutines, iters := 8, 100
-	if c.Tier == "thorough" {
-		iters = 200
-	}
+	// (thorough has ~20 times the cases of quick -- every pair of product operations, every flat triple -- at the same
+	// number of iterations per goroutine: measured 35 min at 200 iterations on a loaded machine, too long)
 	c15Configure(tc.Init)
 	defer c15Restore(tc.Init)
 	// alone: a world of its own (so that "first use" is still a first use in the concurrent run)
